@@ -10,7 +10,7 @@
 (***************************************************************************)
 EXTENDS Integers, Sequences, FiniteSets, TLC, Json, SequencesExt
 
-CONSTANTS MaxPorts, MaxLen, MaxLines, MaxSplit
+CONSTANTS MaxPorts, MaxLen, MaxLines, MaxSplit, MaxSelPorts, MaxSelLen
 
 PortNames == <<"a", "b", "c", "d">>
 Item(p, i) == p \o ToString(i)
@@ -70,7 +70,10 @@ Lens == 0..MaxLen
 InitComb == /\ kind = "combine"
             /\ c \in UNION {{[np |-> np, lens |-> l, keys |-> k] : l \in [1..np -> Lens], k \in Perms(1..np)} : np \in 1..MaxPorts}
 InitSplit == /\ kind = "split" /\ c \in {[lines |-> nl, n |-> n] : nl \in 0..MaxLines, n \in 1..MaxSplit}
-Init == InitComb \/ InitSplit
+\* selector cases: np streams of equal length n, and for every item whether the predicate holds (every mask)
+InitSelect == /\ kind = "select"
+              /\ c \in UNION {{[np |-> np, n |-> n, mask |-> m] : m \in [1..np -> [1..n -> BOOLEAN]]} : np \in 1..MaxSelPorts, n \in 0..MaxSelLen}
+Init == InitComb \/ InitSplit \/ InitSelect
 Next == UNCHANGED <<kind, c>>
 Spec == Init /\ [][Next]_<<kind, c>>
 
@@ -78,10 +81,26 @@ InsOf(cc) == [p \in {PortNames[i] : i \in 1..cc.np} |-> Stream(PortNames[CHOOSE 
 KeysOf(cc) == [i \in 1..cc.np |-> PortNames[cc.keys[i]]]
 LinesOf(n) == [i \in 1..n |-> "L" \o ToString(i)]
 C19_Cartesian == kind = "combine" => CartesianOK(InsOf(c), KeysOf(c))
+\* advertised for IPSelectorSync: tuple k is forwarded, on every out-port, iff all its members satisfy the predicate;
+\* the out-ports stay aligned and keep the arrival order; nothing else is emitted
+SelPorts(cc) == {PortNames[i] : i \in 1..cc.np}
+SelIns(cc) == [p \in SelPorts(cc) |-> Stream(p, cc.n)]
+SelDropped(cc) == UNION {{Item(PortNames[i], k) : k \in {k2 \in 1..cc.n : ~cc.mask[i][k2]}} : i \in 1..cc.np}
+SelOuts(cc) == Selected(SelIns(cc), SelPorts(cc), LAMBDA x : x \notin SelDropped(cc))
+SelKeep(cc) == {k \in 1..cc.n : \A i \in 1..cc.np : cc.mask[i][k]}
+SelKeepSeq(cc) == SetToSortSeq(SelKeep(cc), <)
+SelectOK(cc) ==
+  LET outs == SelOuts(cc)  keep == SelKeepSeq(cc)
+  IN  /\ \A p \in SelPorts(cc) : Len(outs[p]) = Len(keep)
+      /\ \A p \in SelPorts(cc) : \A j \in 1..Len(keep) : outs[p][j] = Item(p, keep[j])
+      /\ \A j, j2 \in 1..Len(keep) : j < j2 => keep[j] < keep[j2]
+C19_Select == kind = "select" => SelectOK(c)
 C19_Split == kind = "split" => SplitOK(LinesOf(c.lines), c.n)
 Export == IF kind = "combine"
           THEN PrintT("CASE " \o ToJson([kind |-> "combine", lens |-> c.lens, np |-> c.np,
                                          ntuples |-> Cardinality(Product(InsOf(c), DOMAIN InsOf(c)))]))
+          ELSE IF kind = "select"
+          THEN PrintT("CASE " \o ToJson([kind |-> "select", np |-> c.np, n |-> c.n, mask |-> c.mask, keep |-> SelKeepSeq(c)]))
           ELSE PrintT("CASE " \o ToJson([kind |-> "split", lines |-> c.lines, n |-> c.n,
                                          parts |-> [i \in DOMAIN Split(LinesOf(c.lines), c.n) |-> Len(Split(LinesOf(c.lines), c.n)[i])]]))
 =============================================================================
